@@ -258,10 +258,10 @@ func runC10(r *core.Run) {
 	}
 	urlish := []string{"a", " ", "\n", "[", "]", "(", ")", "<", ">", "javascript:", "data:", "x", "!", "\"", "<b>", "http://a.bc", ":"}
 	jobs := []job{
-		{"block", core.ABlock, 4, 5, []string{"core", "all+align=attr", "all+attr+autoid+align=style"}},
+		{"block", core.ABlock, 4, 5, []string{"core", "all+align=attr", "all+attr+autoid+align=style", "all+attrall+align=attr"}},
 		{"inline", core.AInline, 4, 5, []string{"core", "all+align=attr"}},
 		{"html", core.AHTML, 4, 5, []string{"core", "gfm+align=attr"}},
-		{"ext", core.AExt, 4, 5, []string{"gfm+align=attr", "gfm+align=style", "footnote", "deflist", "typographer", "tasklist", "all+align=attr"}},
+		{"ext", core.AExt, 4, 5, []string{"gfm+align=attr", "gfm+align=style", "footnote", "deflist", "typographer", "tasklist", "all+align=attr", "all+attrall+align=attr"}},
 		{"url", urlish, 4, 5, []string{"core", "all+align=attr"}},
 	}
 	for _, j := range jobs {
